@@ -71,7 +71,7 @@ def plan(tier: str) -> dict:
         "cases": 1500 if quick else 60000,
         "shards": 16,
         "budget_s": 35 if quick else 540,
-        "floors": {"raising_calls_judged": 8000 if quick else 200000},
+        "floors": {"raising_calls_judged": 6000 if quick else 200000, "judged:sort(nested,cyclic)": 300 if quick else 20000},
         "min_nontrivial": 200,
     }
 
@@ -146,15 +146,123 @@ def report(ctx, ops, failure):
     ctx.violation(sig, msg, {"ops": small[:n]})
 
 
+def sort_scenario(rng, ops_out=None):
+    """Nested graphs (main graph, sibling and nested subgraphs), several of them not in topological
+    order, with a dependency cycle planted in ONE of them (directly, or through a nested use of the
+    enclosing node's own output).  Returns (world, container to sort, description)."""
+    import onnx_ir as ir
+
+    w = World()
+    graphs = []
+    desc = {"graphs": []}
+
+    def build(depth, visible, label):
+        k = rng.randint(2, 4)
+        nodes = []
+        local = []
+        for i in range(k):
+            cands = local + visible
+            ins = [rng.choice(cands) for _ in range(rng.randint(0, 2))] if cands else []
+            attrs = []
+            if depth < 2 and rng.random() < (0.55 if depth == 0 else 0.3):
+                for j in range(rng.randint(1, 2)):
+                    attrs.append(ir.AttrGraph(f"b{j}", build(depth + 1, visible + local, f"{label}.{i}.{j}")))
+            n = ir.Node("", "Op", ins, attrs, num_outputs=rng.randint(1, 2), name=f"{label}_n{i}")
+            nodes.append(n)
+            local.extend(n.outputs)
+        order = list(nodes)
+        if rng.random() < 0.7:
+            rng.shuffle(order)
+        g = ir.Graph([], [], nodes=order, name=label)
+        graphs.append((g, nodes))
+        return g
+
+    main = build(0, [], "g")
+    # plant a cycle in one graph
+    target, tnodes = rng.choice(graphs)
+    how = rng.choice(["direct", "self", "nested"])
+    if how == "direct" and len(tnodes) >= 2:
+        a, b = rng.sample(tnodes, 2)
+        a.resize_inputs(len(a.inputs) + 1)
+        a.replace_input_with(len(a.inputs) - 1, b.outputs[0])
+        b.resize_inputs(len(b.inputs) + 1)
+        b.replace_input_with(len(b.inputs) - 1, a.outputs[0])
+    elif how == "nested":
+        # a node nested inside `a` uses a's own output
+        holders = [n for n in tnodes if any(at.type == ir.AttributeType.GRAPH for at in n.attributes.values())]
+        if holders:
+            a = rng.choice(holders)
+            sub = next(at.value for at in a.attributes.values() if at.type == ir.AttributeType.GRAPH)
+            if len(sub):
+                inner = sub[rng.randrange(len(sub))]
+                inner.resize_inputs(len(inner.inputs) + 1)
+                inner.replace_input_with(len(inner.inputs) - 1, a.outputs[0])
+            else:
+                how = "self"
+        else:
+            how = "self"
+    if how == "self" or (how == "direct" and len(tnodes) < 2):
+        a = rng.choice(tnodes)
+        a.resize_inputs(len(a.inputs) + 1)
+        a.replace_input_with(len(a.inputs) - 1, a.outputs[0])
+    desc["cycle"] = {"in": target.name, "how": how}
+    desc["orders"] = {g.name: [n.name for n in g] for g, _ in graphs}
+    cont = main
+    if rng.random() < 0.3:
+        cont = ir.Function("d", "f", graph=main, attributes=[])
+        w.add_function(cont)
+    w.add_graph(main)
+    w.discover()
+    return w, cont, desc
+
+
+def run_sort_case(ctx, case):
+    rng = ctx.rng(case, "sort")
+    w, cont, desc = sort_scenario(rng)
+    pre = snapshot.snapshot(w)
+    try:
+        cont.sort()
+        ctx.count("sort_returned_on_planted_cycle")  # C12 judges that; here only rejected calls matter
+        raised = None
+    except Exception as e:  # noqa: BLE001
+        raised = e
+    ctx.count("sort_scenarios")
+    nontrivial = False
+    if raised is not None:
+        ctx.count("raising_calls_judged")
+        ctx.count("judged:sort(nested,cyclic)")
+        ctx.count("exc:" + type(raised).__name__)
+        unsorted_elsewhere = len(desc["orders"]) >= 2
+        nontrivial = unsorted_elsewhere
+        d = snapshot.diff(pre, snapshot.snapshot(w))
+        if d:
+            msg = ("Graph.sort raised %s on a nested model with a cycle in %r but changed state: " % (type(raised).__name__, desc["cycle"])
+                   + "; ".join(f"{l}.{f}: {a!r} -> {b!r}" for l, f, a, b in d[:4]))
+            ctx.violation(f"state-changed|sort(nested)!:{type(raised).__name__}@{histories.raise_site(raised)}", msg,
+                          {"sort_case": case, "seed": ctx.seed})
+    ctx.evaluation(key=["sort", desc["cycle"]["how"], len(desc["orders"]), sorted(len(v) for v in desc["orders"].values())],
+                   nontrivial=nontrivial)
+    if case % 101 == 0:
+        ctx.sample({"case": case, "sort_scenario": desc, "raised": type(raised).__name__ if raised else None})
+
+
 def run(ctx) -> None:
     extra = snapshot.unaccounted_attributes()
     if extra:
         raise RuntimeError(f"snapshot does not account for public attributes {extra}; extend vfpy/snapshot.py")
     for case in ctx.case_ids():
-        run_case(ctx, case)
+        if case % 4 == 3:
+            for sub in range(6):  # cheap: six nested sort scenarios per slot
+                run_sort_case(ctx, case * 8 + sub)
+        else:
+            run_case(ctx, case)
 
 
 def replay(data, ctx) -> None:
+    if "sort_case" in data:
+        ctx.seed = data.get("seed", ctx.seed)
+        run_sort_case(ctx, data["sort_case"])
+        return
     mon = SnapshotMonitor()
     w, f = histories.replay_ops(data["ops"], mon)
     if f:
